@@ -192,6 +192,42 @@ func c04(r *Report) {
 		Check: CmpCheck("Internal.Address == Public.Address is false", token.EQL,
 			VPat{Desc: "config.Internal.Address", M: func(v ssa.Value) bool { return FieldPathEnds(v, "Internal", "Address") }},
 			VPat{Desc: "config.Public.Address", M: func(v ssa.Value) bool { return FieldPathEnds(v, "Public", "Address") }}, false)})
+	// ... nor the same socket in two spellings (':8080' / '0.0.0.0:8080', 'localhost:8080' / '127.0.0.1:8080'): only one of the two
+	// servers can bind, the node keeps running, and when the internal one wins its routes are served on the public address
+	sla := Fn(h, "", "sameListenAddress")
+	r.Gate(Gate{ID: "C04.binds.addresses-do-not-overlap", Fn: cfgFn, Effect: CallEffect(Fn(h, "MultiEcho", "Bind")), Check: CallCheck(sla, 0, IsFalse)})
+	addrArg := func(which string) VPat {
+		return VPat{Desc: "config." + which + ".Address", M: func(v ssa.Value) bool { return FieldPathEnds(v, which, "Address") }}
+	}
+	r.ArgIs("C04.binds.addresses-do-not-overlap.of-the-two-addresses", cfgFn, sla, 0, OrV(addrArg("Internal"), addrArg("Public")), 1)
+	r.ArgIs("C04.binds.addresses-do-not-overlap.of-the-two-addresses", cfgFn, sla, 1, OrV(addrArg("Internal"), addrArg("Public")), 1)
+	// "not the same" is concluded (constant false) only from an address that does not resolve, different ports, or port 0;
+	// everything else is decided by the IP comparison (equal, or one of them the wildcard)
+	slaFn := p.Func(h, "", "sameListenAddress")
+	port := FieldV("TCPAddr", "Port")
+	r.Gate(Gate{ID: "C04.binds.overlap.false-only-for-different-ports", Fn: slaFn, Effect: ReturnsConstBoolVal(0, false),
+		Check: CmpCheck("port1 == port2 is false", token.EQL, port, port, false),
+		Alt: []Check{CallCheck(Fn("std:net", "", "ResolveTCPAddr"), -1, NonNil), CmpCheck("port == 0", token.EQL, port, IntV(0), true)}})
+	{
+		rule := "ARG: the IP comparison of sameListenAddress treats the unspecified address as overlapping (IP.IsUnspecified is consulted) next to IP.Equal"
+		key := "C04.binds.overlap.wildcard-overlaps-everything"
+		nU, nE := 0, 0
+		if slaFn != nil {
+			for _, f := range WithAnons(slaFn) {
+				nU += len(Calls(f, Fn("std:net", "IP", "IsUnspecified")))
+				nE += len(Calls(f, Fn("std:net", "IP", "Equal")))
+			}
+		}
+		r.Sites += nU + nE
+		switch {
+		case slaFn == nil:
+			r.Lost(key, rule, "sameListenAddress not found")
+		case nU == 0 || nE == 0:
+			r.Bad(key, rule, p.Pos(slaFn.Pos()), fmt.Sprintf("IsUnspecified calls: %d, Equal calls: %d", nU, nE))
+		default:
+			r.OK(key, rule, p.Pos(slaFn.Pos()), "", true)
+		}
+	}
 	// a request that fails authentication has no side effect: the (shared-bucket) rate limiter sits INSIDE the auth middleware,
 	// i.e. it is installed after it (echo runs middleware in registration order), and only once auth was installed
 	r.Gate(Gate{ID: "C04.install.rate-limiter-inside-auth", Fn: cfgFn, Effect: CallEffect(Fn(h, "Engine", "applyRateLimiterMiddleware")), Check: ErrCheck(Fn(h, "Engine", "applyAuthMiddleware"))})
